@@ -104,7 +104,7 @@ def set_decimal_config() -> None:
             disable_value=DISABLE_VALUE,
         )
 
-    if DECIMAL_WIDTH < MIN_DECIMAL_WIDTH or DECIMAL_SCALE > MAX_DECIMAL_WIDTH:
+    if DECIMAL_WIDTH < MIN_DECIMAL_WIDTH or DECIMAL_WIDTH > MAX_DECIMAL_WIDTH:
         raise RunTimeError(
             code="0-4-1-1",
             env_var=DECIMAL_WIDTH_ENV_VAR,
